@@ -58,6 +58,7 @@ def run(ctx):
   squeeze_lint(ctx)
   validation(ctx)
   dead_stores(ctx)
+  transformation_wiring(ctx)
 
 
 # ------------------------------------------------------------------ R1
@@ -738,6 +739,70 @@ def _innermost(m, fi, node):
     if child.node.lineno <= node.lineno <= getattr(child.node, 'end_lineno', child.node.lineno):
       return _innermost(m, child, node)
   return best
+
+
+# ------------------------------------------------------------------ R8
+def transformation_wiring(ctx):
+  """R8: every GradientTransformation / ShardedGradientTransformation built in the package hands the state constructor to
+  `init`, the step function to `update` (and the spec function to `init_partition_spec`): decided by the shape of what is
+  passed - a function of one parameter is an init / spec function, a function of two or three an update function; an
+  attribute of another transformation must be its `.init` / `.update` / `.init_partition_spec`."""
+  m = ctx.model
+  n = 0
+  FIELDS = ('init', 'update', 'init_partition_spec')
+  for fq, fi in sorted(m.functions.items()):
+    if fi.module.name.endswith('_test'):
+      continue
+    al = module_aliases(fi.module.tree)
+    nested = {}
+
+    def collect(f):
+      for c in f.children.values():
+        nested.setdefault(c.node.name, c.node)
+        collect(c)
+    top = fi
+    while top.parent is not None:
+      top = top.parent
+    collect(top)
+    for node in ast.walk(fi.node):
+      if not isinstance(node, ast.Call) or _innermost(m, fi, node) is not fi:
+        continue
+      fsrc = ast.unparse(node.func)
+      head = fsrc.split('.')[0]
+      full = (al.get(head, head) + fsrc[len(head):]) if head in al else fsrc
+      if not full.split('.')[-1] in ('GradientTransformation', 'ShardedGradientTransformation'):
+        continue
+      if any(isinstance(a, ast.Starred) for a in node.args):
+        continue
+      bound = {}
+      for i, a in enumerate(node.args[:3]):
+        bound[FIELDS[i]] = a
+      for kw in node.keywords:
+        if kw.arg in FIELDS:
+          bound[kw.arg] = kw.value
+      n += 1
+      for fld, a in bound.items():
+        arity = None
+        if isinstance(a, ast.Lambda):
+          arity = len(a.args.args)
+        elif isinstance(a, ast.Name) and a.id in nested:
+          fn = nested[a.id]
+          arity = len(fn.args.args)
+          required = arity - len(fn.args.defaults)
+        if isinstance(a, ast.Lambda):
+          required = arity - len(a.args.defaults)
+        if arity is not None:
+          ok = (required <= 1 <= arity) if fld in ('init', 'init_partition_spec') else (required <= 3 and arity >= 2)
+          what = f'a function of {arity} parameter(s)'
+        elif isinstance(a, ast.Attribute) and a.attr in FIELDS:
+          ok = a.attr == fld
+          what = f'`{ast.unparse(a)}`'
+        else:
+          continue
+        ctx.ob('C07.R8', fi.short, f'{full.split(".")[-1]}.{fld} <- {ast.unparse(a)[:40]}', ok,
+               f'`{fld}` of the transformation receives {what}: init / init_partition_spec take one tree (params), update takes (updates, state[, params]) - '
+               'swapped arguments make the optimizer unusable', ctx.loc(fi, node), sample=f'{fld}={ast.unparse(a)[:30]}', trivial=True)
+  ctx.need('C07.R8', n, 8, 'GradientTransformation construction sites')
 
 
 # ------------------------------------------------------------------ R6
